@@ -105,42 +105,49 @@ fn c14_method<F: AnyF, const M: usize>() {
 
 #[kani::proof]
 #[kani::stub(std::backtrace::Backtrace::capture, crate::verif_common::no_backtrace)]
+#[kani::stub(<::anyhow::Error as std::ops::Drop>::drop, crate::verif_common::anyhow_drop_noop)]
 #[kani::unwind(6)]
 fn c14_smh_free_f64_n4() {
     c14_free_fn::<f64, 4>(false);
 }
 #[kani::proof]
 #[kani::stub(std::backtrace::Backtrace::capture, crate::verif_common::no_backtrace)]
+#[kani::stub(<::anyhow::Error as std::ops::Drop>::drop, crate::verif_common::anyhow_drop_noop)]
 #[kani::unwind(6)]
 fn c14_smh_free_f32_n4() {
     c14_free_fn::<f32, 4>(false);
 }
 #[kani::proof]
 #[kani::stub(std::backtrace::Backtrace::capture, crate::verif_common::no_backtrace)]
+#[kani::stub(<::anyhow::Error as std::ops::Drop>::drop, crate::verif_common::anyhow_drop_noop)]
 #[kani::unwind(6)]
 fn c14_smh_alias_f64_n4() {
     c14_free_fn::<f64, 4>(true);
 }
 #[kani::proof]
 #[kani::stub(std::backtrace::Backtrace::capture, crate::verif_common::no_backtrace)]
+#[kani::stub(<::anyhow::Error as std::ops::Drop>::drop, crate::verif_common::anyhow_drop_noop)]
 #[kani::unwind(8)]
 fn c14_smh_free_f64_n6() {
     c14_free_fn::<f64, 6>(false);
 }
 #[kani::proof]
 #[kani::stub(std::backtrace::Backtrace::capture, crate::verif_common::no_backtrace)]
+#[kani::stub(<::anyhow::Error as std::ops::Drop>::drop, crate::verif_common::anyhow_drop_noop)]
 #[kani::unwind(6)]
 fn c14_smh_method_f64_m4() {
     c14_method::<f64, 4>();
 }
 #[kani::proof]
 #[kani::stub(std::backtrace::Backtrace::capture, crate::verif_common::no_backtrace)]
+#[kani::stub(<::anyhow::Error as std::ops::Drop>::drop, crate::verif_common::anyhow_drop_noop)]
 #[kani::unwind(8)]
 fn c14_smh_method_f64_m5() {
     c14_method::<f64, 5>();
 }
 #[kani::proof]
 #[kani::stub(std::backtrace::Backtrace::capture, crate::verif_common::no_backtrace)]
+#[kani::stub(<::anyhow::Error as std::ops::Drop>::drop, crate::verif_common::anyhow_drop_noop)]
 #[kani::unwind(6)]
 fn c14_smh_method_f32_m3() {
     c14_method::<f32, 3>();
@@ -408,6 +415,7 @@ macro_rules! smh_proof {
     ($name:ident, $unw:expr, $body:expr) => {
         #[kani::proof]
         #[kani::stub(std::backtrace::Backtrace::capture, crate::verif_common::no_backtrace)]
+        #[kani::stub(<::anyhow::Error as std::ops::Drop>::drop, crate::verif_common::anyhow_drop_noop)]
         #[kani::unwind($unw)]
         fn $name() {
             $body
